@@ -459,9 +459,13 @@ func (e *Engine) evCall(c *ast.CallExpr, st *State) []Value {
 			recv = &rv
 		}
 	}
+	wb := e.recvWB
+	e.recvWB = nil
 	args := e.evArgs(c, sig, st)
 	if fn != nil {
-		return e.callStatic(c, fn, sig, recv, args, st)
+		res := e.callStatic(c, fn, sig, recv, args, st)
+		e.writeBackRecv(st, wb)
+		return res
 	}
 	// interface method
 	if se, ok := fun.(*ast.SelectorExpr); ok && recv != nil {
@@ -474,7 +478,11 @@ func (e *Engine) evCall(c *ast.CallExpr, st *State) []Value {
 						if mfn, ok := msel.Obj().(*types.Func); ok {
 							rv := e.unbox(recv.T, ct)
 							rv = e.methodRecv(st, rv, msel, se.Pos())
-							return e.callStatic(c, mfn, mfn.Type().(*types.Signature), &rv, args, st)
+							wb2 := e.recvWB
+							e.recvWB = nil
+							res := e.callStatic(c, mfn, mfn.Type().(*types.Signature), &rv, args, st)
+							e.writeBackRecv(st, wb2)
+							return res
 						}
 					}
 				}
@@ -672,8 +680,71 @@ func (e *Engine) evQuant(kind string, c *ast.CallExpr, st *State) Value {
 	return Value{fmt.Sprintf("(exists ((%s %s)) %s)", bv, e.isort(), and(rng, body.T)), types.Typ[types.Bool]}
 }
 
+// recvWriteBack: see methodRecv (copy-in/copy-out of a value-embedded receiver).
+type recvWriteBack struct {
+	outer  string
+	outerT types.Type
+	field  *types.Var
+	inner  *types.Struct
+	ref    string
+}
+
+// writeBackRecv copies the fields of the temporary receiver object back into the embedded field.
+func (e *Engine) writeBackRecv(st *State, wb *recvWriteBack) {
+	if wb == nil || st == nil {
+		return
+	}
+	var fs []string
+	for i := 0; i < wb.inner.NumFields(); i++ {
+		g := wb.inner.Field(i)
+		fs = append(fs, e.loadField(st, wb.ref, wb.field.Type(), g.Name(), g.Type()).T)
+	}
+	sn := e.sortOf(wb.field.Type())
+	val := "mk-" + sn
+	if len(fs) > 0 {
+		val = sx("mk-"+sn, fs...)
+	}
+	hn := fieldHeapName(wb.outerT, wb.field.Name())
+	srt := e.arrSort(sn)
+	h := e.heapGet(st, hn, srt)
+	e.heapSet(st, hn, srt, sx("store", h, wb.outer, val))
+}
+
 func (e *Engine) methodRecv(st *State, rv Value, sel *types.Selection, p token.Pos) Value {
 	path := sel.Index()
+	e.recvWB = nil
+	if len(path) == 2 {
+		// a method promoted from a struct embedded BY VALUE in the struct rv points to, with a pointer receiver: the
+		// receiver is the address of the embedded field. The verifier has no interior pointers; the call is executed
+		// on a fresh object holding a copy of the embedded value (copy-in) and the object's fields are copied back
+		// into the embedded field when the call returns (copy-out, evCall). Exact as long as the method does not
+		// keep the receiver - true of field getters and setters, which is what such promoted methods are.
+		if pt, ok := types.Unalias(rv.Typ).Underlying().(*types.Pointer); ok {
+			if su, ok := pt.Elem().Underlying().(*types.Struct); ok {
+				f := su.Field(path[0])
+				inner, isStruct := types.Unalias(f.Type()).Underlying().(*types.Struct)
+				fn := sel.Obj().(*types.Func)
+				sig := fn.Type().(*types.Signature)
+				if isStruct && sig.Recv() != nil {
+					if _, wantPtr := sig.Recv().Type().(*types.Pointer); wantPtr {
+						e.oblige(st, "nil", not(eq(rv.T, e.izero())), p, "nil dereference")
+						val := e.loadField(st, rv.T, pt.Elem(), f.Name(), f.Type())
+						r := e.alloc(st)
+						for i := 0; i < inner.NumFields(); i++ {
+							g := inner.Field(i)
+							hn := fieldHeapName(f.Type(), g.Name())
+							srt := e.arrSort(e.sortOf(g.Type()))
+							h := e.heapGet(st, hn, srt)
+							e.heapSet(st, hn, srt, sx("store", h, r, e.proj(e.sortOf(f.Type()), g.Name(), i, val.T)))
+						}
+						e.recvWB = &recvWriteBack{outer: rv.T, outerT: pt.Elem(), field: f, inner: inner, ref: r}
+						e.stubsUsed["pointer-receiver method promoted from a value-embedded struct: executed on a copy of the embedded value, copied back on return (exact for methods that do not keep their receiver)"] = true
+						return Value{r, types.NewPointer(f.Type())}
+					}
+				}
+			}
+		}
+	}
 	if len(path) > 1 {
 		rv = e.fieldPath(st, rv, path[:len(path)-1], p)
 	}
